@@ -109,10 +109,16 @@ func Verif_C01_accounting() {
 	fbRuns := 0
 	var fbArg error
 	var fallback func(err error) error
+	fbPanics := false
 	if variant >= 2 && verifChoose("fallback", 2) == 1 {
+		// the fallback returns its own error, or panics (e.g. re-panics the rejection for a recover middleware)
+		fbPanics = verifChoose("fallbackPanics", 2) == 1
 		fallback = func(err error) error {
 			fbRuns++
 			fbArg = err
+			if fbPanics {
+				panic(verifEFb)
+			}
 			return verifEFb
 		}
 	}
@@ -144,6 +150,13 @@ func Verif_C01_accounting() {
 	if verifCoinCalls > 0 && verifCoinAnswer {
 		// rejected
 		verifAssert(reqRuns == 0, "rejected: the protected function is not run")
+		verifAssert(a1 == a0 && t1 == t0, "rejected: a call that was not admitted records no outcome, whatever its fallback does")
+		if fallback != nil && fbPanics {
+			verifAssert(panicked && v == any(verifEFb), "rejected: a panic of the fallback reaches the caller unchanged")
+			verifAssert(fbRuns == 1 && fbArg == ErrServiceUnavailable, "rejected: the fallback receives ErrServiceUnavailable")
+			verifReach("rejected-fallback-panics")
+			return
+		}
 		verifAssert(!panicked, "rejected: no panic")
 		if fallback != nil {
 			verifAssert(fbRuns == 1 && fbArg == ErrServiceUnavailable, "rejected: the fallback receives ErrServiceUnavailable")
